@@ -118,7 +118,9 @@ def check(ctx, case, uni, ans):
         model["store"] = sorted(model["store"])
     else:
         model["store"] = sorted(before)
+    model.pop("unpacked", None)
     ctx.corr("Status.gc~gc.gc", case, impl, model)
+    ctx.corr("Status.gcLeftovers~'.unpacked' directories after gc", case, run_impl.extras[1], sorted(ans.get("unpacked", [])))
     ctx.count("outcome:" + ("ok" if "removed" in impl else impl["err"]))
     # oracle
     ex_before, ex_after = run_impl.extras
@@ -150,7 +152,8 @@ def model_req(case, uni, before=None):
     store = sorted(case["store"])
     cache = case["cache"] if case["cache"] is not None else store
     return {"op": "gc", "L": uni.L_json(), "store": store, "cache": cache, "hash_name": case["hash_name"],
-            "used": case["used"], "shallow": case["shallow"], "dry": case["dry"], "read_only": case["read_only"]}
+            "used": case["used"], "shallow": case["shallow"], "dry": case["dry"], "read_only": case["read_only"],
+            "unpacked": sorted(case.get("unpacked", [])) if case["local"] else []}
 
 
 def run_cases(ctx, n):
